@@ -17,10 +17,17 @@ EXPLANATION = (
     'Decides structural clauses of C19: R1 the four ordering dunders of Version delegate to one comparison core with '
     'operator.lt/gt/le/ge and ==/!=/hash read the same field; R2 every result of the core is comparator(f(ours), f(theirs)) '
     'with one projection on both sides, and the (projection, direction) sequence is [kind: int above str, value, length]; '
-    'R3 the operator-prefix chain of _version_extract_cmpop picks the longest documented prefix with the matching slice; '
+    'R3 the rows of _version_extract_cmpop pick the longest documented prefix and return (operator, text minus that many characters); '
+    'version_compare_many files a requirement under "failed" iff version_compare is false and its verdict is "failed is empty"; '
     'R4 the decision tables of Range.__contains__/__post_init__/_intersect_min/_intersect_max/intersect/always and '
     'version_check_to_range equal the reference range algebra on every world of their atoms. '
-    'Does NOT decide the order axioms on concrete version strings (tokenisation is run-time).')
+    'All tables are extracted after a syntactic normalisation (c19_norm: tail duplication + forward substitution of locals by their '
+    'reaching definition), so early returns vs. if/elif with a result variable, named sub-conditions, hoisted attribute reads and '
+    'renamed locals give the same rows; a constant module-level dict {operator.X: lambda v: Range(..)} is folded and read arm by arm. '
+    'Does NOT decide the order axioms on concrete version strings (tokenisation is run-time); a local whose definition may have been '
+    'invalidated before its use, and range expressions that are not chains of Range(..)/.intersect(..), end Undecided.')
+TECHNIQUE = ('decision tables by path enumeration over canonical atoms + world enumeration, after tail duplication and copy propagation of '
+             'locals; symbolic comparison of row outcomes/effects; constant folding of a dispatch table')
 ASSUMPTIONS = ['operator.lt/gt/le/ge/eq/ne and Python tuple/int/str comparison behave as documented',
                'dataclasses generates __eq__ for Range over all five fields']
 
@@ -369,7 +376,7 @@ def r4_intersect(ctx: RuleCtx) -> None:
     _r4_intersect_side(ctx, 'max')
     mod = ctx.repo.module(UNIVERSAL)
     fn = mod.func('Range.intersect')
-    tab = tables.extract(normalise(fn), inline=False, effects=_assign_effects, name='Range.intersect')
+    tab = tables.extract(normalise(fn, module=mod.tree), inline=False, effects=_assign_effects, name='Range.intersect')
     sem = {_truth('ARG1.is_empty'): 'x_empty', _truth('self.is_empty'): 'self_empty',
            Atom('is', ('ARG1.min', 'None')): 'xmin_none', Atom('is', ('ARG1.max', 'None')): 'xmax_none'}
 
@@ -437,66 +444,205 @@ REF_CHECK = {  # op -> Range keyword arguments (V = Version(v))
     'le': {'max': 'V', 'max_eq': 'True'}, 'lt': {'max': 'V', 'max_eq': 'False'},
     'eq': {'min': 'V', 'max': 'V', 'min_eq': 'True', 'max_eq': 'True'},
 }
+ALL_OPS = set(REF_CHECK) | {'ne'}
+Term = T.Tuple[T.Tuple[str, str], ...]
+
+
+def _range_fields(mod: T.Any) -> T.List[T.Tuple[str, str]]:
+    """Declared fields of the Range dataclass with their constant defaults (declaration order = positional order)."""
+    out: T.List[T.Tuple[str, str]] = []
+    for st in mod.cls('Range').body:
+        if isinstance(st, ast.AnnAssign) and isinstance(st.target, ast.Name):
+            if not isinstance(st.value, ast.Constant):
+                raise Undecided(f'Range.{st.target.id}: the default is not a constant')
+            out.append((st.target.id, norm(st.value)))
+    if not out:
+        raise Undecided('Range declares no fields')
+    return out
+
+
+def _term(kw: T.Dict[str, str], fields: T.List[T.Tuple[str, str]]) -> Term:
+    """Canonical constraint: the keyword arguments that differ from the declared default."""
+    dflt = dict(fields)
+    return tuple(sorted((k, v) for k, v in kw.items() if dflt.get(k) != v))
+
+
+class _RangeReader:
+    """Reads the *shape* of a range-valued expression: a chain `A.intersect(B)...` of `Range(k=..)` constructor
+    calls -> the list of constraints (policy form (d): no value is computed).  A call of an entry of a constant
+    dispatch table `T.get(op)(v)` / `T[op](v)` is read through the lambda stored for the operator at hand."""
+
+    def __init__(self, ctx: RuleCtx, mod: T.Any, opvar: str, vvar: str):
+        self.ctx, self.mod, self.opvar, self.vvar = ctx, mod, opvar, vvar
+        self.fields = _range_fields(mod)
+        self.tables: T.Dict[str, T.Dict[str, ast.Lambda]] = {}
+
+    def table(self, name: str) -> T.Dict[str, ast.Lambda]:
+        if name not in self.tables:
+            from .c19_fold import fold_operator_table
+            self.tables[name] = fold_operator_table(self.ctx.repo, self.mod, name)
+        return self.tables[name]
+
+    def lookup(self, e: ast.AST) -> T.Optional[str]:
+        """`T.get(op)` / `T[op]` -> 'T'."""
+        if isinstance(e, ast.Call) and isinstance(e.func, ast.Attribute) and e.func.attr == 'get' and isinstance(e.func.value, ast.Name) \
+                and len(e.args) == 1 and not e.keywords and norm(e.args[0]) == self.opvar:
+            return e.func.value.id
+        if isinstance(e, ast.Subscript) and isinstance(e.value, ast.Name) and norm(e.slice) == self.opvar:
+            return e.value.id
+        return None
+
+    def value(self, e: ast.AST) -> str:
+        t = norm(e)
+        return 'V' if t == f'Version({self.vvar})' else t
+
+    def terms(self, e: ast.AST, op: str) -> T.List[Term]:
+        if isinstance(e, ast.Call) and isinstance(e.func, ast.Attribute) and e.func.attr == 'intersect' and len(e.args) == 1 and not e.keywords:
+            return self.terms(e.func.value, op) + self.terms(e.args[0], op)
+        if isinstance(e, ast.Call) and norm(e.func) == 'Range':
+            names = [f for f, _ in self.fields]
+            if len(e.args) > len(names) or any(k.arg is None for k in e.keywords) or any(isinstance(a, ast.Starred) for a in e.args):
+                raise Undecided(f'version_check_to_range: cannot read the arguments of {short(e)}')
+            kw = {names[i]: self.value(a) for i, a in enumerate(e.args)}
+            kw.update({k.arg: self.value(k.value) for k in e.keywords})     # type: ignore[misc]
+            return [_term(kw, self.fields)]
+        if isinstance(e, ast.Call):
+            tname = self.lookup(e.func)
+            if tname is not None:
+                lam = self.table(tname).get(op)
+                if lam is None:
+                    raise Undecided(f'version_check_to_range: {tname} has no entry for operator.{op} on a row that uses it')
+                a = lam.args
+                if a.vararg or a.kwarg or a.kwonlyargs or a.defaults or e.keywords or len(a.posonlyargs + a.args) != len(e.args):
+                    raise Undecided(f'version_check_to_range: cannot bind the arguments of {short(lam)}')
+                from ..tables import _Subst
+                body = _Subst({p.arg: x for p, x in zip(a.posonlyargs + a.args, e.args)}).visit(ast.parse(norm(lam.body), mode='eval').body)
+                return self.terms(body, op)
+        raise Undecided(f'version_check_to_range: cannot read the range built by {short(e)}')
+
+
+def names_in_text(text: str) -> T.Set[str]:
+    try:
+        return {n.id for n in ast.walk(ast.parse(text, mode='eval')) if isinstance(n, ast.Name)}
+    except SyntaxError:
+        return set()
+
+
+def _resolve_effects(effs: T.List[str]) -> T.Dict[str, ast.AST]:
+    """Last value stored to each plain local on one row, with earlier locals of the same row substituted
+    (reaching definitions along one path)."""
+    from ..tables import _Subst
+    env: T.Dict[str, ast.AST] = {}
+    for e in effs:
+        if ':=' not in e or e.startswith('call '):
+            touched = names_in_text(e[5:] if e.startswith('call ') else e) & set(env)
+            if touched:
+                raise Undecided(f'version_check_to_range: `{e}` may change the value of {sorted(touched)} after it was built')
+            continue
+        t, v = (x.strip() for x in e.split(':=', 1))
+        if not t.isidentifier():
+            touched = names_in_text(t) & set(env)
+            if touched:
+                raise Undecided(f'version_check_to_range: `{e}` stores into {sorted(touched)} after it was built')
+            continue
+        env[t] = _Subst(dict(env)).visit(ast.parse(v, mode='eval').body)
+    return env
 
 
 def r4_check_to_range(ctx: RuleCtx) -> None:
     mod = ctx.repo.module(UNIVERSAL)
     fn = mod.func('version_check_to_range')
-    loops = [s for s in fn.body if isinstance(s, ast.For)]
+    fnn = normalise(fn, calls={'Version', 'Range', 'intersect'})
+    loops = [s for s in fnn.body if isinstance(s, ast.For)]
     if len(loops) != 1:
         raise Undecided('version_check_to_range: expected one loop over the checks')
-    tab = tables.extract(fn, body=loops[0].body, effects=_assign_effects, inline=False, name='version_check_to_range:loop')
-    opvar = None
-    for st in loops[0].body:
+    tab = tables.extract(fnn, body=loops[0].body, effects=_assign_effects, inline=False, name='version_check_to_range:loop')
+    opvar = vvar = None
+    for st in ast.walk(loops[0]):
         if isinstance(st, ast.Assign) and isinstance(st.value, ast.Call) and norm(st.value.func) == '_version_extract_cmpop':
             t = st.targets[0]
             if isinstance(t, ast.Tuple) and len(t.elts) == 2:
                 opvar, vvar = norm(t.elts[0]), norm(t.elts[1])
-    if opvar is None:
+    if opvar is None or vvar is None:
         raise Undecided('version_check_to_range: operator extraction call not found')
+    params = [a.arg for a in fn.args.args]
+    if len(params) != 2:
+        raise Undecided('version_check_to_range: expected (checks, start)')
+    acc = 'ARG2'
+    rd = _RangeReader(ctx, mod, opvar, vvar)
     seen_ops: T.Set[str] = set()
     for r in tab.rows:
-        trues = [a for a, v in r.conds.items() if v and a.kind == 'is' and a.args[0] == opvar and a.args[1].startswith('operator.')]
-        if len(trues) != 1:
-            if not trues:
-                continue   # no operator matched: nothing to build (all six are covered, checked below)
-            raise Undecided(f'version_check_to_range: row with {len(trues)} operator tests true')
-        op = trues[0].args[1].split('.')[1]
+        op_true: T.Set[str] = set()
+        op_false: T.Set[str] = set()
+        feasible = True
+        present: T.List[T.Set[str]] = []
+        for a, v in r.conds.items():
+            if a.kind == 'is' and a.args[0] == opvar and a.args[1].startswith('operator.'):
+                (op_true if v else op_false).add(a.args[1].split('.', 1)[1])
+            tname, has = None, v
+            if a.kind == 'is' and a.args[1] == 'None':
+                tname, has = rd.lookup(ast.parse(a.args[0], mode='eval').body), not v
+            elif a.kind == 'in' and a.args[0] == opvar and a.args[1].isidentifier():
+                tname = a.args[1]
+            if tname is not None:
+                keys = set(rd.table(tname))
+                if has:
+                    present.append(keys)
+                else:
+                    op_false |= keys
+        # the operators this row stands for: a finite domain (the six functions _version_extract_cmpop returns),
+        # `x is A` excludes `x is B`, membership in a constant table is decided by its keys
+        if len(op_true) > 1:
+            continue
+        cand = (set(op_true) if op_true else set(ALL_OPS)) - op_false
+        for keys in present:
+            cand &= keys
+        if not cand:
+            continue       # infeasible row, or no operator matched: nothing is built
+        node = r.path.events[-1].node if r.path.events else fn
         effs = _effs(r)
-        ctx.require(effs[-1:] == ['start := start.intersect(r)'] or effs[-1:] == ['ARG2 := ARG2.intersect(r)'],
-                    f'{op}: the range is narrowed by intersect', mod, 'version_check_to_range', r.path.events[-1].node,
-                    f'row for operator {op} does not end with start = start.intersect(r)')
-        builds = [e for e in effs if e.startswith('r :=')]
-        if op in REF_CHECK:
-            if op in seen_ops:
-                continue
+        env = _resolve_effects(effs)
+        final = env.get(acc)
+        narrowed = isinstance(final, ast.Call) and isinstance(final.func, ast.Attribute) and final.func.attr == 'intersect' \
+            and norm(final.func.value) == acc and len(final.args) == 1
+        if final is not None and not narrowed:
+            raise Undecided(f'version_check_to_range: cannot read how the range is narrowed: {short(final)}')
+        if narrowed and isinstance(final.args[0], ast.Name):          # type: ignore[union-attr]
+            # the operand has no definition on this row (no arm ran): nothing is built for these operators, unless the
+            # local is also bound outside the loop body (then the rule cannot tell what it holds)
+            n = final.args[0].id                                        # type: ignore[union-attr]
+            outside = [x for x in ast.walk(fnn) if isinstance(x, ast.Name) and x.id == n and isinstance(x.ctx, ast.Store)
+                       and not any(x is y for y in ast.walk(loops[0]))]
+            if n in params or outside:
+                raise Undecided(f'version_check_to_range: `{n}` is bound outside the loop; cannot read the range of row {r!r}')
+            ctx.note(f'version_check_to_range: operators {sorted(cand)}: no arm builds a range (row {r!r})')
+            continue
+        for op in sorted(cand):
             seen_ops.add(op)
-            want = REF_CHECK[op]
-            got: T.Dict[str, str] = {}
-            ok = len(builds) == 1
-            if ok:
-                call = ast.parse(builds[0].split(':=', 1)[1].strip(), mode='eval').body
-                ok = isinstance(call, ast.Call) and norm(call.func) == 'Range' and not call.args
-                if ok:
-                    for k in call.keywords:
-                        val = norm(k.value)
-                        got[k.arg or '?'] = 'V' if val == f'Version({vvar})' else val
-            ctx.require(ok and got == want, f'operator {op} builds Range({want})', mod, 'version_check_to_range', r.path.events[-1].node,
-                        f'operator {op} builds Range({got}); the reference is Range({want})')
-        elif op == 'ne':
-            seen_ops.add('ne')
-            # Range() possibly minus an extremum it equals
-            eqmin = [v for a, v in r.conds.items() if a.kind == 'cmp' and a.args[0] == 'eq' and 'start.min' in a.args[1:] or a.kind == 'cmp' and 'ARG2.min' in a.args[1:]]
-            eqmax = [v for a, v in r.conds.items() if a.kind == 'cmp' and a.args[0] == 'eq' and ('start.max' in a.args[1:] or 'ARG2.max' in a.args[1:])]
-            want_b = ['r := Range()']
-            if eqmin and eqmin[0]:
-                want_b.append('r := Range(min=v_, min_eq=False)')
-            if eqmax and eqmax[0]:
-                want_b.append('r := r.intersect(Range(max=v_, max_eq=False))')
-            ctx.require(builds == want_b, f'!= row ({"min" if eqmin and eqmin[0] else ""}{"max" if eqmax and eqmax[0] else ""}) removes only the extrema', mod,
-                        'version_check_to_range', r.path.events[-1].node, f'!= row builds {builds}; reference {want_b}')
-    ctx.require(seen_ops == set(REF_CHECK) | {'ne'}, f'all operators have a row: {sorted(seen_ops)}', mod, 'version_check_to_range', fn,
-                f'operators with a row: {sorted(seen_ops)}; expected {sorted(set(REF_CHECK) | {"ne"})}')
+            ctx.require(narrowed, f'{op}: the range is narrowed by intersect', mod, 'version_check_to_range', node,
+                        f'row for operator {op} does not end with start = start.intersect(r)')
+            if not narrowed:
+                continue
+            got = sorted(t for t in rd.terms(final.args[0], op) if t)        # type: ignore[union-attr]
+            if op in REF_CHECK:
+                want = [_term(REF_CHECK[op], rd.fields)]
+                what = f'operator {op} builds Range({REF_CHECK[op]})'
+            else:
+                # != : the full range, minus an extremum of the current range that it equals
+                def eq_bound(side: str) -> bool:
+                    vals = [v for a, v in r.conds.items() if a.kind == 'cmp' and a.args[0] == 'eq'
+                            and set(a.args[1:]) == {f'Version({vvar})', f'{acc}.{side}'}]
+                    return bool(vals and vals[0])
+                want = []
+                if eq_bound('min'):
+                    want.append(_term({'min': 'V', 'min_eq': 'False'}, rd.fields))
+                if eq_bound('max'):
+                    want.append(_term({'max': 'V', 'max_eq': 'False'}, rd.fields))
+                what = f'!= row ({"min" if eq_bound("min") else ""}{"max" if eq_bound("max") else ""}) removes only the extrema'
+            ctx.require(got == sorted(want), what, mod, 'version_check_to_range', node,
+                        f'operator {op}: the row `{r!r}`'[:400] + f' intersects with {[dict(t) for t in got]}; the reference is {[dict(t) for t in sorted(want)]}')
+    ctx.require(seen_ops == ALL_OPS, f'all operators have a row: {sorted(seen_ops)}', mod, 'version_check_to_range', fn,
+                f'operators with a row: {sorted(seen_ops)}; expected {sorted(ALL_OPS)}')
     # condition_with_min
     fn2 = mod.func('version_compare_condition_with_min')
     tab2 = tables.extract(fn2, name='version_compare_condition_with_min')
